@@ -819,9 +819,9 @@ def shards(tier: str) -> list:
     scen("from 'connected'", [S, T, T], 3, k0s=(0,), split=True)
     # B. same-turn interleavings: events are injected without running the loop in between
     scen("events injected into the same loop turn unless time is advanced", [S], L, settle=0, split=sp)
-    scen("same-turn injection with zero-delay attempts, from connected / waiting", [S, T], 3, k0s=(0, 2), outc="0,2,5", d1=0, d2=0, settle=0, split=True)
+    scen("same-turn injection with zero-delay attempts, from connected / waiting", [S, T], 3, k0s=(0,) if quick else (0, 2), outc="0,2" if quick else "0,2,5", d1=0, d2=0, settle=0, split=True)
     # C. attempts that complete without ever suspending
-    scen("zero-delay attempts (start- and finish-phase failures coincide)", [S], 3, k0s=(0, 2) if quick else (0, 2, 5), outc="0,2,5", d1=0, d2=0, split=True)
+    scen("zero-delay attempts (start- and finish-phase failures coincide)", [S], 3, k0s=(0, 2) if quick else (0, 2, 5), outc="0,2" if quick else "0,2,5", d1=0, d2=0, split=True)
     # D. slow connect: the retry timer of an earlier failure fires while a record-triggered attempt is connecting
     scen("connect phase takes 3 s (stale retry timer vs record-triggered attempt)", [S, T, E_DELTA], 3, k0s=(2,), outc="0,2", d1=3, d2=0, split=True)
     # E. name derived from the address / unknown name / library-created zeroconf / Zeroconf passed to the manager
